@@ -48,7 +48,7 @@ def ident(n):
 
 
 def lean_ty(t):
-    return {'Np': 'List Int', 'NpBool': 'List Bool', 'None': 'Unit', 'Str': 'String'}.get(t, t)
+    return {'Np': 'List Int', 'NpBool': 'List Bool', 'None': 'Unit', 'Str': 'String', 'Set Int': 'List Int'}.get(t, t)
 
 
 def ilit(k):
@@ -67,6 +67,9 @@ class Spec:
         self.funs = {}                    # python name -> dict(lean, params, ret, pure)   (filled while translating)
         self.operators = {}               # (type, '+') -> python function name in funs
         self.funs_by_attr = {}            # (type, attr) -> python function name in funs (translated properties / methods)
+        self.fields = {}                  # (type, python attribute) -> (Lean field, field type): attributes that may be stored to
+        self.value_types = set()          # record types with value semantics (`x.copy()` is the identity on the model's values)
+        self.kinds = set()                # note type strings that exist as `Kind` constructors
 
 
 class FunTr:
@@ -74,6 +77,7 @@ class FunTr:
         self.spec, self.name, self.params, self.ret = spec, name, params, ret
         self.n = 0
         self.assumed = []      # partial-evaluation decisions taken from the declared types
+        self.fresh_terms = set()   # terms known to denote a value no other name refers to (results of copy / constructors / calls)
 
     def fresh(self, base='t'):
         self.n += 1
@@ -176,6 +180,10 @@ class FunTr:
                 if self.posint(e.right):
                     return f'({a} {"/" if op == "FloorDiv" else "%"} {b})', 'Int'
                 return self.bind(B, f'Py.{"floordiv" if op == "FloorDiv" else "mod"} {a} {b}', 'Res Int')
+        if 'Rat' in (aty, bty) and {aty, bty} <= {'Rat', 'Int'} and op in ('Add', 'Sub', 'Mult'):
+            a = a if aty == 'Rat' else f'(({a} : Int) : Rat)'
+            b = b if bty == 'Rat' else f'(({b} : Int) : Rat)'
+            return f'({a} {dict(Add="+", Sub="-", Mult="*")[op]} {b})', 'Rat'
         if aty == 'Np' and bty == 'Int' and op in ('Add', 'Sub', 'Mult'):
             v = self.fresh('v')
             return f'({a}.map (fun ({v} : Int) => {v} {dict(Add="+", Sub="-", Mult="*")[op]} {b}))', 'Np'
@@ -205,9 +213,22 @@ class FunTr:
                 r = {'true': 'false', 'false': 'true'}.get(r, f'(!{r})')
             return r, 'Bool'
         a, aty = self.expr(e.left, env, B)
+        if aty == 'Kind' and op in ('In', 'NotIn') and isinstance(right, (ast.List, ast.Tuple)) and \
+                all(isinstance(x, ast.Constant) and isinstance(x.value, str) for x in right.elts):
+            ks = [x.value for x in right.elts if x.value in self.spec.kinds]
+            dropped = [x.value for x in right.elts if x.value not in self.spec.kinds]
+            if dropped:
+                self.assumed.append(f'line {e.lineno}: note types {dropped} do not exist in the model (17 library types)')
+            r = '([' + ', '.join(f'Kind.{k}' for k in ks) + f'] : List Kind).contains {a}'
+            return (f'({r})' if op == 'In' else f'(!({r}))'), 'Bool'
+        if aty == 'Kind' and op in ('Eq', 'NotEq') and isinstance(right, ast.Constant) and isinstance(right.value, str):
+            if right.value in self.spec.kinds:
+                return f'(decide ({a} {self.CMP[op]} Kind.{right.value}))', 'Bool'
+            self.assumed.append(f'line {e.lineno}: note type {right.value!r} does not exist in the model')
+            return ('false' if op == 'Eq' else 'true'), 'Bool'
         b, bty = self.expr(right, env, B)
         if op in ('In', 'NotIn'):
-            if aty == 'Int' and bty in LIST_TYPES:
+            if aty == 'Int' and bty in LIST_TYPES + ('Set Int',):
                 r = f'(Py.isIn {a} {b})'
                 return (r if op == 'In' else f'(!{r})'), 'Bool'
             raise Untranslatable(f'{aty} in {bty}')
@@ -218,7 +239,7 @@ class FunTr:
         if aty == 'Np' and bty == 'Int':
             v = self.fresh('v')
             return f'({a}.map (fun ({v} : Int) => decide ({v} {self.CMP[op]} {b})))', 'NpBool'
-        if aty == bty and aty in ('Mode', 'Str', 'Bool', 'Option Mode', 'Option Acc') and op in ('Eq', 'NotEq'):
+        if aty == bty and aty in ('Mode', 'Str', 'Bool', 'Option Mode', 'Option Acc', 'Kind', 'Rat') and op in ('Eq', 'NotEq'):
             return f'(decide ({a} {self.CMP[op]} {b}))', 'Bool'
         raise Untranslatable(f'{aty} {op} {bty} at line {e.lineno}')
 
@@ -274,7 +295,8 @@ class FunTr:
 
     def e_Call(self, e, env, B):
         fn = e.func
-        if e.keywords and not (isinstance(fn, ast.Name) and fn.id in self.spec.ctors):
+        if e.keywords and not (isinstance(fn, ast.Name) and (fn.id in self.spec.ctors or fn.id in self.spec.funs)) \
+                and not isinstance(fn, ast.Attribute):
             raise Untranslatable('keyword arguments')
         if isinstance(fn, ast.Name):
             n = fn.id
@@ -294,6 +316,11 @@ class FunTr:
                 if ty not in LIST_TYPES:
                     raise Untranslatable(f'sorted({ty})')
                 return f'(sortInts {t})', 'List Int'
+            if n in ('frozenset', 'set') and len(e.args) == 1:
+                t, ty = self.expr(e.args[0], env, B)
+                if ty not in LIST_TYPES + ('Set Int',):
+                    raise Untranslatable(f'{n}({ty})')
+                return t, 'Set Int'
             if n == 'len' and len(e.args) == 1:
                 t, ty = self.expr(e.args[0], env, B)
                 if ty not in LIST_TYPES:
@@ -319,6 +346,12 @@ class FunTr:
                 return self.ctor(n, e, env, B)
             if n in self.spec.funs:
                 args = [self.expr(a, env, B) for a in e.args]
+                if e.keywords:
+                    pn = [p[0] for p in self.spec.funs[n]['params']][len(args):]
+                    kw = {k.arg: k.value for k in e.keywords}
+                    if set(kw) != set(pn):
+                        raise Untranslatable(f'keyword arguments of {n}')
+                    args += [self.expr(kw[p], env, B) for p in pn]
                 return self.call_fun(n, args, B)
             raise Untranslatable(f'call of {n}')
         if isinstance(fn, ast.Attribute):
@@ -328,8 +361,29 @@ class FunTr:
                     raise Untranslatable('np.asarray of non-int-list')
                 return t, 'Np'
             v, vty = self.expr(fn.value, env, B)
+            if fn.attr == 'copy' and vty in self.spec.value_types and not e.args:
+                if B is None:
+                    raise Untranslatable('copy inside a pure context')
+                t = self.fresh('cp')
+                self.fresh_terms.add(t)
+                B.append((t, ('pure', v)))
+                return t, vty
+            if fn.attr == 'index' and vty in LIST_TYPES and len(e.args) == 1:
+                x, xty = self.expr(e.args[0], env, B)
+                if xty != 'Int':
+                    raise Untranslatable('list.index of non-int')
+                return self.bind(B, f'Py.index {v} {x}', 'Res Int')
             args = [self.expr(a, env, B) for a in e.args]
             key = (vty, fn.attr)
+            if key in self.spec.funs_by_attr and e.keywords:
+                f = self.spec.funs[self.spec.funs_by_attr[key]]
+                pn = [p[0] for p in f['params']][1 + len(args):]
+                kw = {k.arg: k.value for k in e.keywords}
+                if set(kw) != set(pn):
+                    raise Untranslatable(f'keyword arguments of {fn.attr}')
+                args += [self.expr(kw[p], env, B) for p in pn]
+            if e.keywords and key not in self.spec.funs_by_attr:
+                raise Untranslatable('keyword arguments')
             if key in self.spec.methods:
                 tmpl, rty = self.spec.methods[key]
                 return self.bind(B, tmpl.format(v, *[a[0] for a in args]), rty)
@@ -351,6 +405,10 @@ class FunTr:
         for py, lean, ty, default in c['fields']:
             if py in given:
                 t, tty = self.expr(given[py], env, B)
+                if ty == 'Rat' and tty == 'Int':
+                    t, tty = f'(({t} : Int) : Rat)', 'Rat'
+                if ty == 'Kind' and tty == 'Str':
+                    t, tty = self.bind(B, f'Py.kindOfStr {t}', 'Res Kind')
                 if lean_ty(tty) != ty:
                     raise Untranslatable(f'{n}({py}=…): {tty}, expected {ty}')
             elif default is not None:
@@ -386,6 +444,8 @@ class FunTr:
         elt, ety = self.expr(e.elt, env2, Be)
         if ety != 'Int':
             raise Untranslatable(f'list of {ety}')
+        if Be and all(isinstance(m, tuple) for _, m in Be):
+            raise Untranslatable('copy inside a comprehension')
         if Be:
             if len(iters) != 1:
                 raise Untranslatable('raising element in a nested comprehension')
@@ -393,7 +453,7 @@ class FunTr:
             src = it
             for c in conds:
                 src = f'({src}.filter (fun ({x} : Int) => {c}))'
-            body = ' '.join(f'let {n} ← {m};' for n, m in Be) + f' pure {elt}'
+            body = ' '.join((f'let {n} := {m[1]};' if isinstance(m, tuple) else f'let {n} ← {m};') for n, m in Be) + f' pure {elt}'
             return self.bind(B, f'{src}.mapM (fun ({x} : Int) => do {body})', 'Res (List Int)')
         term = None
         for x, it, conds in reversed(iters):
@@ -405,6 +465,12 @@ class FunTr:
             else:
                 term = f'({src}.flatMap (fun ({x} : Int) => {term}))'
         return term, 'List Int'
+
+    def e_SetComp(self, e, env, B):
+        l = ast.ListComp(elt=e.elt, generators=e.generators)
+        ast.copy_location(l, e)
+        t, ty = self.e_ListComp(l, env, B)
+        return t, 'Set Int'       # only ever used for membership tests
 
     # ---------------------------------------------------------------- statements
     def coerce_ret(self, t, ty):
@@ -418,9 +484,25 @@ class FunTr:
                 return f'(some {t})'
         raise Untranslatable(f'return of {ty}, declared {r}')
 
+    def is_fresh_value(self, v):
+        """constructor calls and results of translated functions denote new objects"""
+        if isinstance(v, ast.Call):
+            f = v.func
+            if isinstance(f, ast.Name) and (f.id in self.spec.ctors or f.id in self.spec.funs):
+                return True
+            if isinstance(f, ast.Attribute) and f.attr == 'copy':
+                return True
+        return False
+
+    def fresh_vars(self, env):
+        return env.get('__fresh__', frozenset())
+
     def wrap(self, B, node):
         for n, m in reversed(B):
-            node = ('bind', n, m, node)
+            if isinstance(m, tuple) and m[0] == 'pure':
+                node = ('let', n, None, m[1], node)
+            else:
+                node = ('bind', n, m, node)
         return node
 
     def block(self, body, env):
@@ -436,7 +518,35 @@ class FunTr:
             name = s.targets[0].id
             if ty == 'None':
                 t = '()'
-            return self.wrap(B, ('let', ident(name), lean_ty(ty), t, self.block(rest, {**env, name: ty})))
+            fr = set(self.fresh_vars(env)) - {ident(name)}
+            if t in self.fresh_terms or self.is_fresh_value(s.value):
+                fr.add(ident(name))
+            return self.wrap(B, ('let', ident(name), lean_ty(ty), t,
+                                 self.block(rest, {**env, name: ty, '__fresh__': frozenset(fr)})))
+        if isinstance(s, (ast.Assign, ast.AugAssign)):
+            tgt = s.targets[0] if isinstance(s, ast.Assign) and len(s.targets) == 1 else getattr(s, 'target', None)
+            if isinstance(tgt, ast.Attribute) and isinstance(tgt.value, ast.Name) and tgt.value.id in env:
+                x = tgt.value.id
+                xty = env[x]
+                if (xty, tgt.attr) not in self.spec.fields:
+                    raise Untranslatable(f'store to {xty}.{tgt.attr} at line {s.lineno}')
+                if ident(x) not in self.fresh_vars(env):
+                    raise Untranslatable(f'store through `{x}`, which may alias an operand, at line {s.lineno}')
+                field, fty = self.spec.fields[(xty, tgt.attr)]
+                B = []
+                if isinstance(s, ast.AugAssign):
+                    v = ast.BinOp(left=ast.Attribute(value=ast.Name(id=x, ctx=ast.Load()), attr=tgt.attr, ctx=ast.Load()),
+                                  op=s.op, right=s.value)
+                    ast.copy_location(v, s)
+                    ast.fix_missing_locations(v)
+                else:
+                    v = s.value
+                t, ty = self.expr(v, env, B)
+                if fty == 'Rat' and ty == 'Int':
+                    t, ty = f'(({t} : Int) : Rat)', 'Rat'
+                if lean_ty(ty) != fty:
+                    raise Untranslatable(f'store of {ty} to {xty}.{tgt.attr} ({fty})')
+                return self.wrap(B, ('let', ident(x), lean_ty(xty), '{ ' + ident(x) + f' with {field} := {t} }}', self.block(rest, env)))
         if isinstance(s, ast.AugAssign) and isinstance(s.target, ast.Name):
             B = []
             e = ast.BinOp(left=ast.Name(id=s.target.id, ctx=ast.Load()), op=s.op, right=s.value)
@@ -484,7 +594,8 @@ def render(node, ind, monadic):
     k = node[0]
     sp = ' ' * ind
     if k == 'let':
-        return [f'{sp}let {node[1]} : {node[2]} := {node[3]}'] + render(node[4], ind, monadic)
+        ann = f' : {node[2]}' if node[2] else ''
+        return [f'{sp}let {node[1]}{ann} := {node[3]}'] + render(node[4], ind, monadic)
     if k == 'bind':
         return [f'{sp}let {node[1]} ← {node[2]}'] + render(node[3], ind, monadic)
     if k == 'if':
